@@ -90,3 +90,9 @@ add("C03",
     "~30 modules x ~150 write sequences (quick) to ~400 x 400 (thorough): exact accept/reject boundaries for all widths, byte-exact neighbour preservation in read-modify-write, nothing changed on failure, algebraic inverse of write inference reads back.",
     "Trusts: embref write model; values passed within the argument type of each method (Bcd/enum/virtual methods take their ValueType by value); writability of virtual fields read from the compiler's IR.",
     "DESIGN.md §4 C03")
+
+add("C19",
+    "property-based testing: generated enums (boundary values, duplicates, is_signed / maximum_bits / enum_case at every level, nested and inline) compiled with g++ and probed through a generated driver; every probe result compared with the value computed directly from the definition",
+    "~45 modules x ~5 enums x ~60 probes (quick), 12x more in thorough: underlying type signedness/width, each enumerator per spelling, name->value only for declared Emboss names, value->first declared name or null, EnumIsKnown, operator<< (numeric rendering not compared for 8-bit types), enum field reads of named/unnamed raw values.",
+    "Trusts: the model->expectation mapping written from cpp-reference.md / language-reference.md; g++ 12; signed enums in fields narrower than their C++ type are a recorded known finding.",
+    "DESIGN.md §4 C19")
